@@ -56,11 +56,14 @@ fn build(scenario: &str) -> Net<Packet> {
     for i in 0..n {
         let mut cfg = base_config(Mode::Router, Type::Tun, 0, &[0]);
         cfg.claims = vec![format!("10.0.{}.0/24", i)];
+        if scenario.ends_with("_plain") {
+            cfg.crypto.algorithms = vec!["plain".to_string()];
+        }
         net.add_node(&cfg, false);
     }
     let a = net.addrs.clone();
     match scenario {
-        "two_single" => net.connect(0, a[1]),
+        "two_single" | "two_single_plain" => net.connect(0, a[1]),
         "two_dual" => {
             net.connect(0, a[1]);
             net.connect(1, a[0]);
@@ -356,11 +359,16 @@ pub fn run_case(c: &Case) -> CaseResult {
 
 fn cases(tier: Tier) -> Vec<Case> {
     let mut v = vec![];
-    let scenarios: &[&str] = tier.pick(&["two_single", "three"][..], &["two_single", "two_dual", "three"][..]);
+    let scenarios: &[&str] = tier.pick(&["two_single", "three", "two_single_plain"][..], &["two_single", "two_dual", "three", "two_single_plain"][..]);
     for sc in scenarios {
         let sel = select(sc);
         for (k, kind, _rel) in sel {
             let sources: &[&str] = if *sc == "three" { &["original", "other_peer", "unknown"] } else { &["original", "unknown"] };
+            if sc.ends_with("_plain") && (kind == "sealed" || kind == "empty") {
+                // on an unencrypted connection data datagrams carry no counter and no tag: replaying them is not prevented
+                // by design ("unless both ends explicitly enabled plain"); only handshake datagrams are re-injected there
+                continue;
+            }
             let variants: Vec<&str> = if kind == "sealed" {
                 if tier == Tier::Quick {
                     vec!["verbatim", "counter+1", "counter_max", "keyid^1"]
